@@ -225,6 +225,13 @@ class PyFn:
         return f"<builtin {self.name}>"
 
 
+class StarSeq:
+    """`*seq` at a call site where seq has unknown length"""
+
+    def __init__(self, seq):
+        self.seq = seq
+
+
 class GenV:
     def __init__(self, items):
         self.items = list(items)
@@ -708,6 +715,14 @@ class Interp:
                 a.set_item(self, idx, v)
                 return
             obj[self.hashable(idx)] = v
+        elif isinstance(obj, SeqV) and isinstance(idx, slice) and idx.start is None and idx.stop is None and idx.step is None:
+            # x[:] = y  -- the object itself changes (callers and postconditions see it);
+            # every derived sequence captured the old accessor when it was built
+            if isinstance(v, SeqV):
+                obj.length, obj.get = v.length, v.get
+            else:
+                new = seq_of_list(self, self.iterate(v))
+                obj.length, obj.get = new.length, new.get
         elif isinstance(obj, SeqV):
             if not (isinstance(node, ast.Subscript) and isinstance(node.value, ast.Name)):
                 raise EngineError("store into a symbolic sequence that is not a local name")
@@ -1016,9 +1031,10 @@ class Interp:
                 return a
         if isinstance(a, SeqV) and isinstance(b, SeqV):
             ct = to_bool_term(c)
+            ga, gb = a.get, b.get
             return SeqV(
                 z3.If(ct, a.length, b.length),
-                lambda j: self.ite_val(c, a.get(j), b.get(j)),
+                lambda j: self.ite_val(c, ga(j), gb(j)),
                 a.kind,
                 a.name,
             )
@@ -1635,9 +1651,9 @@ class Interp:
             g = e.generators[0]
             src = self.eval(g.iter, env)
             if isinstance(src, SeqV) and not z3.is_int_value(z3.simplify(src.length)):
-                def get(j, g=g, src=src):
+                def get(j, g=g, src_get=src.get):
                     cenv = Env({}, env)
-                    self.assign(g.target, src.get(j), cenv)
+                    self.assign(g.target, src_get(j), cenv)
                     self.pure += 1
                     try:
                         return self.eval(e.elt, cenv)
@@ -1758,7 +1774,11 @@ class Interp:
         args = []
         for a in e.args:
             if isinstance(a, ast.Starred):
-                args.extend(self.iterate(self.eval(a.value, env)))
+                sv = self.eval(a.value, env)
+                if isinstance(sv, SeqV) and not z3.is_int_value(z3.simplify(sv.length)):
+                    args.append(StarSeq(sv))  # only zip() understands it
+                else:
+                    args.extend(self.iterate(sv))
             else:
                 args.append(self.eval(a, env))
         kwargs = {}
